@@ -103,14 +103,40 @@ def main(argv=None):
     ap.add_argument('--only', default=None, help='substring filter on query names (debugging)')
     ap.add_argument('--no-evidence', action='store_true')
     ap.add_argument('--cap', type=int, default=None, help='time cap in seconds (debugging)')
+    ap.add_argument('path', nargs='?')
     args = ap.parse_args(argv)
+    if args.prop == 'replay':
+        return replay(args.path)
     if args.prop == 'setup':
         return setup()
     if args.prop == 'replay':
-        return 0
+        return replay(argv[1] if argv else sys.argv[2])
     seed = int(os.environ.get('VERIF_SEED', '0') or 0)
     tier = args.tier if args.tier in ('quick', 'thorough') else 'quick'
-    return run_check(args.prop.upper(), tier, seed, args.workers, args.only, not args.no_evidence, args.cap)
+    return run_check(args.prop.upper(), tier, seed, args.workers, args.only, not (args.no_evidence or args.only), args.cap)
+
+
+def replay(path):
+    """re-run a stored case on the real compiled crate (dev and release profile) and print what it does"""
+    case = json.load(open(path))
+    pid = case['property']
+    mod = importlib.import_module('props.' + pid.lower())
+    from mirsym import explore as E
+    nset = getattr(mod, 'NATIVE', 'default')
+    print('property %s, query %s' % (pid, case.get('query')))
+    print('recorded: %s: %s' % (case.get('label'), case.get('what')))
+    rq = case['request']
+    if 's' in rq:
+        print('input string: %r' % bytes.fromhex(rq['s']).decode('utf8', 'replace'))
+    print('request: %s' % json.dumps(rq))
+    bad = False
+    for rel in (False, True):
+        resp = E.Native(build_native(nset, release=rel)).run([rq])[0]
+        verdict = mod.confirm({'case': rq, 'label': case.get('label', '')}, resp) if not hasattr(mod, 'confirm_multi') else None
+        print('%s build answers: %s' % ('release' if rel else 'dev', json.dumps(resp)[:1500]))
+        print('  property verdict on this answer: %s' % (verdict or 'holds'))
+        bad = bad or bool(verdict)
+    return 1 if bad else 0
 
 
 def setup():
@@ -148,13 +174,21 @@ def run_check(pid, tier, seed, workers, only, write_evidence, cap=None):
     native = E.Native(native_bin)
     native_r = E.Native(native_rel)
     extra_natives = {s: E.Native(build_native(s)) for s in getattr(mod, 'NATIVE_SETS', [])}
+    # translator validation on the repository's own test inputs (concrete mode vs. compiled crate)
+    from mirsym import corpus
+    inconclusive = []
+    corpus_n = 0
+    if 'default' in progs or 'serde' in progs:
+        corpus_n, bad = corpus.validate(progs.get('default') or progs['serde'], E.Native(build_native('default')), REPO)
+        for b in bad[:3]:
+            inconclusive.append('ENGINE-MISMATCH on the repository\'s own test input: ' + b)
     queries = mod.queries(tier)
     if only:
         queries = [q for q in queries if only in q.name]
     caps = getattr(mod, 'TIME_CAP', {'quick': 900, 'thorough': 7200})
-    results = E.explore(progs, queries, workers=workers, seed=seed, budget=400, replay_cap=(30 if tier == 'quick' else 10 ** 9),
+    cq = int(os.environ.get('VERIF_CVC5', '2' if tier == 'thorough' else '0'))
+    results = E.explore(progs, queries, workers=workers, seed=seed, budget=400, replay_cap=(30 if tier == 'quick' else 10 ** 9), cross_quota=cq,
                         time_cap=cap or caps[tier])
-    inconclusive = []
     # ---- engine health
     for r in results:
         if r['errors']:
@@ -163,6 +197,8 @@ def run_check(pid, tier, seed, workers, only, write_evidence, cap=None):
             inconclusive.append('unsupported in %s: %s' % (r['name'], r['unsupported'][0]))
         if not r['complete']:
             inconclusive.append('time cap reached before %s was fully explored' % r['name'])
+        for pr in r['cross_problems'][:2]:
+            inconclusive.append('second solver disagrees / fails on a leaf obligation of %s: %s' % (r['name'], pr))
     # ---- witness replay: the engine's view of each path vs. the compiled crate
     replays = [(r['name'], rq, ex) for r in results for rq, ex in r['replays']]
     resp = native.run([rq for _, rq, _ in replays])
@@ -252,11 +288,11 @@ def run_check(pid, tier, seed, workers, only, write_evidence, cap=None):
         for r in sorted(results, key=lambda r: -r['cpu_s'])[:40]:
             print('  %-50s paths=%-6d cpu=%6.1fs solver=%6.1fs checks=%-6d %s' % (r['name'], r['paths'], r['cpu_s'], r['solver_s'], r['solver_checks'], dict(list(r['outcomes'].items())[:4])))
     if write_evidence:
-        write_ev(pid, tier, seed, mod, results, validated, mismatches, confirmed, new, inconclusive, wall, mir_files, digest, replays)
+        write_ev(pid, tier, seed, mod, results, validated, mismatches, confirmed, new, inconclusive, wall, mir_files, digest, replays, corpus_n)
     return exit_code
 
 
-def write_ev(pid, tier, seed, mod, results, validated, mismatches, confirmed, new, inconclusive, wall, mir_files, digest, replays):
+def write_ev(pid, tier, seed, mod, results, validated, mismatches, confirmed, new, inconclusive, wall, mir_files, digest, replays, corpus_n):
     fns = sorted(set().union(*[r['fns'] for r in results])) if results else []
     mods = sorted(set().union(*[r['models'] for r in results])) if results else []
     outcomes = {}
@@ -293,10 +329,13 @@ def write_ev(pid, tier, seed, mod, results, validated, mismatches, confirmed, ne
             'leaf_obligations_discharged': sum(r['checks'] for r in results),
             'solver_checks': sum(r['solver_checks'] for r in results),
             'solver_seconds': round(sum(r['solver_s'] for r in results), 2),
+            'leaf_obligations_rechecked_with_cvc5': sum(r['cross_n'] for r in results),
+            'cvc5_seconds': round(sum(r['cross_s'] for r in results), 2),
             'mir_statements_executed': sum(r['steps'] for r in results),
             'functions_interpreted': fns,
             'models_used': mods,
             'engine_mismatches': mismatches[:5],
+            'repository_test_inputs_through_engine_and_crate': corpus_n,
             'confirmed_violations': confirmed[:10],
             'inconclusive': inconclusive[:10],
             'outside_the_claim': mod.OUTSIDE,
